@@ -138,6 +138,71 @@ theorem C11_src_nodup_after_expire (now : Nat) (c c' : Client) (fr : List Frame)
   rw [e5]
   exact hn.sublist ((List.filter_sublist).map _)
 
+/-- The allocation leaves the DNS ids with their DNS callbacks (the id it registers was free). -/
+theorem C11_dns_in_chans_after_alloc (cfg : Cfg) (lsn : Nat) (src : Addr) (c c1 : Client)
+    (r : Option (Nat × List Frame)) (v : Nat × Nat) (hd : DnsInChans c)
+    (h : udpAlloc cfg lsn src c = (c1, r)) :
+    DnsInChans { c1 with udpBySrc := set src v c1.udpBySrc } := by
+  obtain ⟨_, e2, _, e4⟩ := udpAlloc_ok h
+  intro q hq
+  simp only [e2] at hq
+  obtain ⟨qid, l, a, o, hl⟩ := hd q hq
+  refine ⟨qid, l, a, o, ?_⟩
+  simp only
+  rcases e4 with ⟨ech, _⟩ | ⟨ch, _, hfree, ech, _⟩
+  · rw [ech]; exact hl
+  · rw [ech, ← set_of_not_hasKey _ _ _ hfree]
+    have hne : ch ≠ q.1 := by
+      intro e
+      rw [← e] at hl
+      exact (hasKey_eq_false_iff _ c.chans).1 hfree _ (lookup_mem hl) rfl
+    rw [lookup_set_ne _ _ hne]
+    exact hl
+
+/-- **One whole `onaccept_udp` keeps the tables consistent** (allocation, table update, sweep). -/
+theorem C11_onaccept_udp_keeps_tables (cfg : Cfg) (now : Nat) (cap : Capture) (c c' : Client)
+    (fr : List Frame) (hinv : TablesInChans c) (hd : DnsInChans c) (hn : SrcNodup c)
+    (h : onacceptUdp cfg now cap c = .ok (c', fr)) : TablesInChans c' ∧ SrcNodup c' := by
+  unfold onacceptUdp at h
+  split at h
+  · simp only [Except.ok.injEq, Prod.mk.injEq] at h
+    obtain ⟨rfl, _⟩ := h
+    exact ⟨hinv, hn⟩
+  · next srcip dstip data _ =>
+    split at h
+    · next c1 ha =>
+      simp only [Except.ok.injEq, Prod.mk.injEq] at h
+      obtain ⟨rfl, _⟩ := h
+      obtain ⟨_, _, e3, e4⟩ := udpAlloc_ok ha
+      have ech : c1.chans = c.chans := by
+        rcases e4 with ⟨ech, _⟩ | ⟨ch, _, _, _, e5⟩
+        · exact ech
+        · cases e5
+      refine ⟨?_, ?_⟩
+      · intro p hp
+        rw [e3] at hp
+        rw [ech]
+        exact hinv p hp
+      · unfold SrcNodup; rw [e3]; exact hn
+    · next c1 chan opens ha =>
+      simp only at h
+      split at h
+      · cases h
+      · next d =>
+        split at h
+        · cases h
+        · next c3 closes he =>
+          simp only [Except.ok.injEq, Prod.mk.injEq] at h
+          obtain ⟨rfl, _⟩ := h
+          have h1 := C11_tables_in_chans_after_alloc cfg cap.lsn srcip c c1 chan
+            (now + cfg.udpHorizonS * cfg.ticksPerS) opens hinv ha
+          have h2 := C11_src_nodup_after_alloc cfg cap.lsn srcip c c1 _
+            (chan, now + cfg.udpHorizonS * cfg.ticksPerS) hn ha
+          have h3 := C11_dns_in_chans_after_alloc cfg cap.lsn srcip c c1 _
+            (chan, now + cfg.udpHorizonS * cfg.ticksPerS) hd ha
+          exact ⟨C11_tables_in_chans_after_expire now _ c3 closes h1 h3 (C11_src_nodup_unique _ h2) he,
+            C11_src_nodup_after_expire now _ c3 closes h2 he⟩
+
 /-- Non-vacuity: the empty client satisfies the invariant and an allocation succeeds on it. -/
 example : TablesInChans ({} : Client) ∧ DnsInChans ({} : Client) ∧ SrcUnique ({} : Client) := by
   refine ⟨?_, ?_, ?_⟩
